@@ -2947,6 +2947,8 @@ impl<E: Effect> Executor<E> {
             // call, or on a later REPL line), the spawner's handle the spawned function.
             (Value::Process(a, _), Value::Process(b, _)) => a == b,
             (Value::Reference(a), Value::Reference(b)) => a == b,
+            // Two handles are equal when they denote the same resource.
+            (Value::Resource(a, _), Value::Resource(b, _)) => a == b,
             _ => false,
         }
     }
